@@ -353,6 +353,9 @@ func checkC13(c *Ctx) Meta {
 	c.Rule("C13-BLOCK", "every blocking operation (send, receive, blocking select, WaitGroup.Wait, or a call that may block on one) executed while a keeper lock is held is unblocked only by goroutines that never acquire a conflicting lock", 8)
 	c.Rule("C13-CHAN", "every close of a channel held in a struct field is once-guarded (sync.Once, successful CAS, mutex + closed flag, or the service's CAS-serialised OnStop); every send on a closable field channel is under the closer's mutex behind the flag test", 6)
 	c.Rule("C13-LOCKORDER", "the acquired-while-holding relation over the keeper's lock classes is acyclic and no non-reentrant lock is re-acquired", 1)
+	c.Rule("C13-STUCK", "a space never stays `plotting` without a plot run: after ws.Plot() returns, the plotter always moves the space out of plotting (otherwise later requests for it find no popped item and panic, and remove/delete refuse for ever); lock acquisitions in the keeper are released on every path", 2)
+	checkStep3(c, "C13-STUCK", pkgCapacity, "capacity")
+	checkStep3(c, "C13-STUCK", pkgSkchia, "skchia")
 	c.Rule("C13-POP", "the plotter queue's heap is popped only under the queue mutex behind a non-emptiness test in the same lock hold, and items popped from the shared queue are nil-tested before use", 8)
 	c.Rule("C13-QUEUE", "the plotter queue's heap is accessed only under the queue mutex by code that can run concurrently with the keeper API", 2)
 
